@@ -226,7 +226,7 @@ class AsyncTask(futures.FutureBase):
             else:
                 self._frame = debug.get_frame(self._generator)
                 self.running = True
-                if hasattr(error, "_task"):
+                if hasattr(error, "_type_"):
                     return self._generator.throw(error._type_, error, error._traceback)
                 else:
                     return self._generator.throw(type(error), error)
